@@ -328,6 +328,8 @@ def insertOwner (node : Nat) (owners : List Nat) : List Nat :=
     go owners
 
 def copyShardOwner (d : Data) (id node : Nat) : Data :=
+  -- only a data node can own a shard (it may have been removed while the copy was under way)
+  if !d.dataNodes.any (·.id == node) then d else
   withShardGroup d id fun g =>
     { g with shards := mapFirst (·.id == id) (fun s => { s with owners := insertOwner node s.owners }) g.shards }
 
